@@ -502,7 +502,7 @@ func init() {
 	run.Register(&run.Prop{
 		ID: "C04", Level: "exploration",
 		Rule: func(tier string) string {
-			return "case = one scripted connection, requests delivered one per chunk, in three rotating kinds: (toplevel) 1..5 client values of every RESP type at top level - status, error, integer, bulk, null bulk, empty/null array, null/non-bulk/nested command names - and command arrays whose name and arguments carry CR, LF, CRLF+forged frames and arbitrary bytes; (handler-result) a command whose handler call returns each message type with hostile payload, nil message, errors with hostile text, message+error, arrays with status/error elements, nested arrays, an array message built without an array, a message whose type is none of the five (alone and inside an array); (example-store) hostile values written to the bundled example store and read back with every read command. Oracle: the whole output decodes under an independent strict RESP2 decoder with nothing left over; the bytes written between two consecutive would-block reads are exactly one frame (or none and the connection is closed); a trailing ECHO is answered exactly; whole-stream delivery gives byte-identical output; in a further run the reader stalls inside a seeded reply write for longer than any write deadline and then reads on (virtual time: the scripted transport cuts that write short iff the server armed a deadline) and what the client reads must still be complete frames; in yet another run a seeded reply write is held half-way (slow reader; the transport keeps the server's slice and takes the rest of it only when resumed) while a second connection of the same server gets three ECHO replies, and the first connection must still receive exactly the bytes of the undisturbed run. distinct = hash of request stream + handler script; all cases are non-trivial (hostile bytes or non-command values)"
+			return "case = one scripted connection, requests delivered one per chunk, in three rotating kinds: (toplevel) 1..5 client values of every RESP type at top level - status, error, integer, bulk, null bulk, empty/null array, null/non-bulk/nested command names - and command arrays whose name and arguments carry CR, LF, CRLF+forged frames and arbitrary bytes; (handler-result) a command whose handler call returns each message type with hostile payload, nil message, errors with hostile text, message+error, arrays with status/error elements, nested arrays, an array message built without an array, a message whose type is none of the five (alone and inside an array); (example-store) hostile values written to the bundled example store and read back with every read command. Oracle: the whole output decodes under an independent strict RESP2 decoder with nothing left over; the bytes written between two consecutive would-block reads are exactly one frame (or none and the connection is closed); a trailing ECHO is answered exactly; whole-stream delivery gives byte-identical output; in a further run the reader stalls inside a seeded reply write for longer than any write deadline and then reads on (virtual time: the scripted transport cuts that write short iff the server armed a deadline) and what the client reads must still be complete frames; in yet another run a seeded reply write is held half-way (slow reader; the transport keeps the server's slice and takes the rest of it only when resumed) while a second connection of the same server gets three ECHO replies, and the first connection must still receive exactly the bytes of the undisturbed run; every fifth case also sends 2..6 GETs answered with 1.5..9 KB values and a malformed frame behind them in ONE read: what the server has written when it closes must be exactly those complete frames (and possibly one error). distinct = hash of request stream + handler script; all cases are non-trivial (hostile bytes or non-command values)"
 		},
 		Assumptions: []string{"integer frames are judged on framing only (a handler may put any CR/LF-free text into an integer message)"},
 		Setup: func(tier string, seed uint64) int {
